@@ -107,6 +107,8 @@ structure St where
   reps : Std.HashMap Nat (Replica Bytes Bytes Bytes × Nat) := {}
   /-- key digests seen so far (the sync ops need the level of fetched keys) -/
   kds : Std.HashMap Bytes Bytes := {}
+  /-- ranges computed by `rplan recv send`, to be fetched later by `rapply` (in-flight pulls) -/
+  plans : Std.HashMap (Nat × Nat) (List (DR Bytes)) := {}
 
 def serOf (t : T) : Except String (Option (List R)) := t.serialise
 
@@ -327,7 +329,8 @@ def step (st : St) (line : String) : St × String :=
     | some r, some base =>
       -- `rnew 0` starts a new self-contained replica case
       let reps := if r = 0 then {} else st.reps
-      ({ st with reps := reps.insert r (Replica.empty, base) }, "ok")
+      let plans := if r = 0 then {} else st.plans
+      ({ st with reps := reps.insert r (Replica.empty, base), plans := plans }, "ok")
     | _, _ => (st, "bad-op")
   | ["rsettle", m] =>
     -- the fair quiescent phase itself: two replicas → as many two-way rounds as there are
@@ -370,6 +373,34 @@ def step (st : St) (line : String) : St × String :=
             ({ st with reps := (st.reps.insert i (ri', base)).insert j (rj', bj) },
               showDRs ranges ++ " | " ++ showKVs (fetch rj.store ranges) ++ " | " ++ showKVs ri'.store)
       | _, _ => (st, "bad-op")
+    | _, _, _ => (st, "bad-op")
+  | ["rplan", i, j] =>
+    -- first half of a pull: both sides hash + serialise, the receiver diffs and keeps the ranges
+    match i.toNat?, j.toNat? with
+    | some i, some j =>
+      match st.reps[i]?, st.reps[j]? with
+      | some (ri, base), some (rj, bj) =>
+        match pullRanges hc ri rj with
+        | .error _ => (st, "panic")
+        | .ok (ranges, rt, stt) =>
+          ({ st with reps := (st.reps.insert i ({ ri with tree := rt }, base)).insert j ({ rj with tree := stt }, bj),
+                     plans := st.plans.insert (i, j) ranges }, showDRs ranges)
+      | _, _ => (st, "bad-op")
+    | _, _ => (st, "bad-op")
+  | ["rapply", i, j, m] =>
+    -- second half, possibly much later: fetch the planned ranges from the sender's CURRENT store
+    match i.toNat?, j.toNat?, parseMerge m with
+    | some i, some j, some m =>
+      match st.reps[i]?, st.reps[j]?, st.plans[(i, j)]? with
+      | some (ri, base), some (rj, _), some ranges =>
+        let lvl := fun (key : Bytes) => level (st.kds.getD key []) base
+        let items := fetch rj.store ranges
+        match ri.absorbAll lvl m items with
+        | .error _ => (st, "panic")
+        | .ok ri' =>
+          ({ st with reps := st.reps.insert i (ri', base), plans := st.plans.erase (i, j) },
+            showKVs items ++ " | " ++ showKVs ri'.store)
+      | _, _, _ => (st, "bad-op")
     | _, _, _ => (st, "bad-op")
   | ["rhash", r] =>
     match r.toNat? with
